@@ -46,7 +46,24 @@ func bigLit(n *big.Int) T {
 	return T{n.String(), "Int"}
 }
 
+// curDefs: definitions of the Exec currently generating VCs (used for peephole simplification of projections).
+var curDefs map[string]string
+
 func app(sort, f string, args ...T) T {
+	if len(args) == 1 && strings.HasPrefix(f, "sl$") {
+		a := args[0].s
+		if d, ok := curDefs[a]; ok && isAtom(a) {
+			a = d
+		}
+		if strings.HasPrefix(a, "(mk$Slice ") {
+			if parts := splitSexpr(a); len(parts) == 5 {
+				idx := map[string]int{"sl$arr": 1, "sl$off": 2, "sl$len": 3, "sl$cap": 4}[f]
+				if idx > 0 {
+					return T{parts[idx], sort}
+				}
+			}
+		}
+	}
 	var sb strings.Builder
 	sb.WriteString("(")
 	sb.WriteString(f)
